@@ -1,5 +1,5 @@
 """C15 - split timing: chart timing is used all-or-nothing under one rule (structural clauses)."""
-from ..rules import timing
+from ..rules import timing, baseline
 
 EXPLANATION = (
     "Static rule checking: R-TABLE CHART_TIMING_PROPERTIES resolved through the descriptor table equals the eleven documented keys, "
@@ -24,8 +24,12 @@ def c5(ctx):
     timing.displaybpm_rule(ctx)
 
 
+def c_api(ctx):
+    baseline.surface(ctx, "C15: documented surface", modules=['simfile.timing', 'simfile.timing.displaybpm', 'simfile.timing._private.timingsource'])
+
 CLAUSES = [
     ("C15.1-2", "the eleven properties; the rule (R-TABLE, predicate atoms)", c1),
     ("C15.3-4", "never mixed (R-SINGLE); offset default", c3),
     ("C15.5", "DISPLAYBPM dispatch", c5),
+    ("C15.api", "public surface: signatures and defaults, constants, enumerations, blank templates, base classes as confirmed (R-API)", c_api),
 ]
